@@ -175,7 +175,7 @@ ONE_SAMPLE = {
 
 def reform(row, form, op):
     """the same row in another form: integer dtype (raw counts) or scaled (non-normalised)"""
-    if form == "float" or op in ("from_rpy", "from_angles", "rpy2q", "euclidean", "rmse", "is_pure", "is_real", "is_versor", "is_identity", "rmse_matrices", "is_identity[S]", "is_pure[S]"):
+    if form in ("float", "held-first", "held-second", "nan-entry") or op in ("from_rpy", "from_angles", "rpy2q", "euclidean", "rmse", "is_pure", "is_real", "is_versor", "is_identity", "rmse_matrices", "is_identity[S]", "is_pure[S]"):
         return row          # angle triples have a documented range: not rescaled
     def one(x, k):
         x = np.asarray(x, dtype=float)
@@ -216,6 +216,11 @@ def replay_cases(recs):
         form = rec.get("form", "float")
         gen, scalar, batch, mode = OPS[op]
         rows = [reform(gen(c), form, op) for c in arr]
+        if form in ("held-first", "held-second") and isinstance(rows[0], tuple):
+            k_ = 0 if form == "held-first" else 1
+            rows = [tuple(rows[0][j].copy() if j == k_ else r[j] for j in range(len(r))) for r in rows]
+        if form == "nan-entry":
+            rows = [tuple(np.where(np.arange(len(x)) == (i + j) % len(x), np.nan, np.asarray(x, dtype=float)) if j == 0 else x for j, x in enumerate(r)) for i, r in enumerate(rows)]
         if form != "float":
             op = op + "#" + form
         n = len(arr)
